@@ -139,7 +139,17 @@ def run_case(ctx, g, rng):
             elif call(c.expand, back[1]) != e:
                 violation(["C03"], "round-trip", "compress-of-expand-differs-from-standardize_curie", curie=curie, expanded=e[1], compressed=back, note="prefix of a rejected registration", **w)
         probe.note_key(f"ghost-curie:pf{int(pf)}", True)
-    for u0 in allu + ghost_u:
+    # the registered URI prefixes with one character percent-encoded, or in the other Unicode normalisation form:
+    # other strings - if the converter recognises them all the same, the round trip must still hold for them
+    import unicodedata
+
+    respelt = []
+    for u0 in allu[:4]:
+        if u0:
+            k = rng.randrange(len(u0))
+            respelt.append(u0[:k] + "%%%02X" % (ord(u0[k]) & 0xFF) + u0[k + 1:])
+            respelt += [v for v in (unicodedata.normalize("NFC", u0), unicodedata.normalize("NFD", u0)) if v != u0]
+    for u0 in allu + ghost_u + respelt:
         for i in ids:
             u = u0 + i
             cu = call(c.compress, u)
